@@ -293,10 +293,10 @@ def fullLib : Val := build unsafeOnly safeLib
 
 def strTotal : List String := ["lower1", "upper1", "title1"]
 
-/-- the tree under test: the four repairs made, dynamic variables still cross the sandbox boundary -/
+/-- the tree under test: all repairs made -/
 def world (fs : List (String × File)) : World := ⟨safeLib, fullLib, fs, Fixes.tree, strTotal⟩
 
-/-- the specification's world: the sandbox does not see the caller's dynamic variables either -/
-def specWorld (fs : List (String × File)) : World := ⟨safeLib, fullLib, fs, Fixes.all, strTotal⟩
+/-- the specification's world: the same -/
+def specWorld (fs : List (String × File)) : World := world fs
 
 end Arrai.C18.Expected
